@@ -135,7 +135,7 @@ pub fn run(tier: Tier, seed: u64) -> i32 {
     rep.sample(json!({"grid case": "Reserve display=2 hidden=81 threshold=3 amount=None auto=true incoming=1 -> consumed 1, display 1+80, hidden 1"}));
     // the same rules seen through PriceLevel::match_order
     let chk = checks_seq::c05_level();
-    let n = budget(tier, 5_000, 500_000);
+    let n = budget(tier, 5_000, 2_000_000);
     checks_seq::run_seq(&chk, &mut rep, n);
     rep.rule = format!(
         "direct calls of match_against over an exhaustive small grid and a 64-bit boundary cross-product, judged by a relation written from the statement (accepts every allowed tranche size); plus {} non-trivial = incoming > 0 (grid) / history with at least one transaction (H-seq); distinct = distinct (order, incoming) tuples / distinct histories",
